@@ -71,6 +71,18 @@ def second_opinion(smt2: str, limit_s=20):
     return out
 
 
+def replay_crosshair(model, src="", call=""):
+    """Re-execute a CrossHair counterexample concretely: the harness module is executed against the analysed tree and the
+    reported call evaluated; the postcondition of these harnesses is 'returns True'."""
+    ns = {"__name__": "ch_replay"}
+    try:
+        exec(compile(src.replace("{SRC}", os.path.join(loader.REPO, "src")), "<crosshair harness>", "exec"), ns)
+        val = eval(call, ns)
+    except Exception as ex:  # noqa: BLE001
+        return True, {"what": f"{call} raised {ex!r}"}
+    return (val is not True), {"what": f"{call} returned {val!r} (the contract requires True)"}
+
+
 class Job:
     """One unit of work of a check (runs in a worker process).  Collects records."""
 
@@ -300,6 +312,50 @@ class Job:
                        "details": frac_json(details), "replay_cmd": f"{VERIF}/check {self.pid} --replay {path}"},
                       f, indent=1)
         self.violations.append({"obligation": name, "replay": path, "what": what})
+
+    def crosshair(self, name, src, func, bound=None, timeout=60):
+        """Decide a contract on a pure-Python path of the real code with CrossHair (symbolic execution of the unmodified
+        function with z3; used where an input is a *string* or a small int that the real-arithmetic engine cannot carry).
+        `src` is a module text defining `func` with PEP-316 pre/post lines; `{SRC}` in it is replaced by the analysed tree's
+        src directory.  'Confirmed over all paths' -> discharged; a counterexample is re-executed concretely and reported
+        only if it reproduces; anything else is inconclusive."""
+        import re
+        import subprocess
+        import tempfile
+        text = src.replace("{SRC}", os.path.join(loader.REPO, "src"))
+        t0 = time.time()
+        with tempfile.TemporaryDirectory(prefix="bbverif-ch-") as d:
+            f = os.path.join(d, "ch_harness.py")
+            with open(f, "w") as fh:
+                fh.write(text)
+            exe = os.path.join(os.path.dirname(sys.executable), "crosshair")
+            try:
+                r = subprocess.run([exe, "check", "--report_all", "--per_condition_timeout", str(timeout), f], capture_output=True, text=True,
+                                   timeout=timeout * 4 + 60)
+                out = r.stdout + r.stderr
+            except Exception as ex:  # noqa: BLE001
+                out = f"crosshair failed to run: {ex!r}"
+        dt = time.time() - t0
+        self.solver_s += dt
+        self.paths += 1
+        lines = [ln for ln in out.splitlines() if "ch_harness.py" in ln]
+        if any("Confirmed over all paths" in ln for ln in lines) and not any(": error:" in ln for ln in lines):
+            self.record(name, "unsat", dt, bound, "CrossHair: confirmed over all paths")
+            return "unsat"
+        m = next((re.search(r"error: (.*?) when calling (" + re.escape(func) + r"\(.*?\))(?= \(which returns|\s*$)", ln) for ln in lines if ": error:" in ln), None)
+        if m:
+            call = m.group(2)
+            ok, det = replay_crosshair({}, src=src, call=call)
+            if ok:
+                self.record(name, "sat", dt, bound, f"CrossHair counterexample {call}")
+                self._violation(name, {"call": call}, dict(det, replayer="replay_crosshair", replayer_kwargs={"src": src, "call": call}, _replayed=True), None)
+                return "sat"
+            self.errors.append(f"{name}: CrossHair counterexample {call} did not reproduce concretely ({det.get('what')})")
+            self.record(name, "spurious", dt, bound, call)
+            return "spurious"
+        self.errors.append(f"{name}: CrossHair was inconclusive within {timeout}s: {' | '.join(ln.split(': ', 1)[-1] for ln in lines)[:300] or out[-300:]}")
+        self.record(name, "unknown", dt, bound, "CrossHair inconclusive")
+        return "unknown"
 
     def known_finding(self, finding, reproduced: bool, what_if_gone=None):
         """Declare that a listed open finding was re-confirmed concretely on this tree (or not)."""
